@@ -16,7 +16,7 @@ from mc import core
 
 LEVEL = "exploration"
 
-STARTS = [0, 1, 0.5, 0.3, 2.7, 10, 100]
+STARTS = [0, 1, 0.5, 0.3, 2.7, 10, 100, -1, -0.3]
 DTS = [1, 0.5, 0.25, 0.125, 0.2, 0.1, 0.05, 0.025, 0.01, 0.3, 0.7]
 
 
@@ -126,6 +126,11 @@ def check_triple(start, dt, n, channels):
             elif any(not core.close(a, b, rel=1e-9, ab=1e-9) for a, b in zip(s_direct, s_rec)):
                 viol.append(("route-value/threshold-stock", "start=%r dt=%r: stock fed by a threshold differs by evaluation order %r vs %r" % (start, dt, s_direct[-3:], s_rec[-3:])))
     if "plot" in channels:
+        # a stop time that the user computed in floats (start + n*dt, n additions of dt) denotes the same grid point
+        for how, fstop in (("start+n*dt", start + n * dt), ("repeated-addition", sum([dt] * n, float(start)))):
+            m, s = build(start, dt, fstop)
+            df = s.plot(return_df=True)
+            cmp("plot/index(stop computed as %s)" % how, [float(x) for x in df.index])
         m, s = build(start, dt, stop)
         df = s.plot(return_df=True)
         if cmp("plot/index", [float(x) for x in df.index]):
@@ -195,6 +200,15 @@ def check_triple(start, dt, n, channels):
             except Exception as e:
                 viol.append(("session/results-by-equation-raises", repr(e)))
             b.end_session()
+            # the model's stop time computed in floats
+            m3, s3 = build(start, dt, start + n * dt)
+            sm3 = sm + "f"
+            b.register_model(m3, scenario_manager=sm3)
+            try:
+                df3 = b.run_scenarios(scenarios=["base"], scenario_managers=[sm3], equations=["s"], return_format="df")
+                cmp("run_scenarios/df-index(stop computed as start+n*dt)", [float(x) for x in df3.index])
+            finally:
+                b.scenario_manager_factory.scenario_managers.pop(sm3, None)
             # a scenario whose run specs override the model's: the run reports the scenario's grid
             m2, s2 = build(0, 1.0, 3.0)
             sm2 = sm + "o"
